@@ -194,7 +194,9 @@ def evaluate(dep, program):
         else:
             continue
         # from the C02/C14 judgement keep only what C03 itself states: count, units, unchanged copy
-        v += [x for x in vv if x["oracle"] in ("C03.count", "C03.units", "C03.rows-unaltered", "C03.columns")]
+        # ("evaluated-values": the batch handed to the kernel -- whose nonlinear part is copied into every emitted row --
+        # does not hold the library's values: the emitted copy of the nonlinear parameters is not unchanged)
+        v += [x for x in vv if x["oracle"] in ("C03.count", "C03.units", "C03.rows-unaltered", "C03.columns", "C03.evaluated-values")]
         v += judge_linear(dep, rec, info, L, AS, probes)
         for kk in ("judged_ops", "path:file", "path:cache", "path:in_memory"):
             if kk in scratch:
